@@ -224,7 +224,7 @@ def check_after_crash(w, top, final, scn, prior_asc, prior_gens, label, ctx, fgw
                 require(e["digest"] == refhash.digest("c4", data), "half-present", "%s: chain digest of %s does not match the file" % (label, p))
     # next commands
     target = hist.wpath(scn, final["root"])
-    order = ("info", "verify", "create_short", "info", "create", "info")
+    order = ("info", "info_v", "verify", "create_short", "info", "create", "info_v")
     if alter_first:
         # at every other crash point the first thing that happens afterwards is a create that meets altered files -
         # those first recorded by the interrupted generation (if its manifest made it to disk) and an older one
@@ -241,10 +241,10 @@ def check_after_crash(w, top, final, scn, prior_asc, prior_gens, label, ctx, fgw
             with open(w.abs(f), "ab") as fh:
                 fh.write(b" altered after the crash")
             ctx.event("altered_before_next_create")
-        order = ("create", "info", "verify", "create_short", "info")
+        order = ("create", "info_v", "verify", "create_short", "info")
     for cmd in order:
-        if cmd == "info":
-            res = w.info(target, frozen=LATER)
+        if cmd in ("info", "info_v"):
+            res = w.info(target, frozen=LATER, flags=["-v"] if cmd == "info_v" else [])
             allowed = (0, 30)
         elif cmd == "create_short":
             # a later run whose manifest is shorter than the interrupted one (fewer formats): leftovers must not leak into it
